@@ -201,6 +201,10 @@ func classify(parent string, ents []tarEnt, named string) string {
 // archiveTitle is the title (directory name) the archive blob is pushed under.
 var archiveTitle = "d"
 
+// archivePrepop, when set, prepares the working directory before the store is opened
+// (extraction into a directory that already holds entries).
+var archivePrepop func(sb *sandbox)
+
 // archivePreserve: the store unpacks with PreservePermissions, and link entries carry a mode
 // of their own (0755).
 var archivePreserve bool
@@ -211,6 +215,9 @@ func runArchive(sb *sandbox, ents []tarEnt, named string) string {
 	os.Chdir(sb.cwd)
 	defer os.Chdir(oldwd)
 	os.Setenv("TMPDIR", filepath.Join(sb.root, "systmp"))
+	if archivePrepop != nil {
+		archivePrepop(sb)
+	}
 	before := sb.snapshot()
 	st, err := file.New(sb.wd)
 	if err != nil {
@@ -393,6 +400,22 @@ func runC11(seed int64, tier string, sc *Script) map[string]any {
 	runOne("hard-abs", []tarEnt{{'h', "d/a", "ABS-OUTSIDE"}, {'r', "d/a", ""}}, "")
 	runOne("hard-abs", []tarEnt{{'d', "d/s", ""}, {'h', "d/s/l1", "ABS-OUTSIDE"}, {'r', "d/s/l1", ""}}, "")
 	runOne("hard-dotdot", []tarEnt{{'h', "d/a", "../outside/victim"}, {'r', "d/a", ""}}, "")
+	// extraction into a directory that already holds symbolic links leading outside: a
+	// directory link (entries beneath it) and a file link (an entry of the same name)
+	archivePrepop = func(sb *sandbox) {
+		os.MkdirAll(filepath.Join(sb.wd, "d", "d"), 0o755)
+		os.Symlink(filepath.Join(sb.root, "outside"), filepath.Join(sb.wd, "d", "d", "out"))
+		os.Symlink(filepath.Join(sb.root, "outside", "victim"), filepath.Join(sb.wd, "d", "d", "vlink"))
+		os.Symlink("../../../../outside/victim", filepath.Join(sb.wd, "d", "d", "rlink"))
+	}
+	runOne("prepop-dirlink", []tarEnt{{'r', "d/out/victim", ""}}, "")
+	runOne("prepop-dirlink", []tarEnt{{'r', "d/out/newfile", ""}}, "")
+	runOne("prepop-dirlink", []tarEnt{{'d', "d/out/sub", ""}, {'r', "d/out/sub/x", ""}}, "")
+	runOne("prepop-filelink", []tarEnt{{'r', "d/vlink", ""}}, "")
+	runOne("prepop-filelink", []tarEnt{{'r', "d/rlink", ""}}, "")
+	runOne("prepop-filelink", []tarEnt{{'h', "d/h", "d/vlink"}, {'r', "d/h", ""}}, "")
+	runOne("prepop-filelink", []tarEnt{{'s', "d/s2", "vlink"}, {'r', "d/s2", ""}}, "")
+	archivePrepop = nil
 	// PreservePermissions: the modes an archive carries are applied inside the working
 	// directory only - a hard link to a file of the process directory shares that file's
 	// inode, and must not have the entry's mode applied to it
